@@ -27,7 +27,20 @@ Inductive case_C07 :=
    arguments, own python names). [items]: for each returned object, in order,
    the argument definitions of its concrete type and what its resolver received *)
 | CaseAbs (s : schema) (vds : list var_def) (call : list argument) (raw : list (str * json))
-          (ovars : obs07) (items : list (list ifield * obs07)).
+          (ovars : obs07) (items : list (list ifield * obs07))
+(* directive arguments: a request  query (vds) { f @dirs  other }  where dirs
+   may hold @skip / @include and a custom directive @custom(cdefs).
+   [oskip]: OOk (PBool b) = field f was left out (b = true) or resolved, ORej 1 =
+   the request died with a CoercionError from _skip_selection.
+   [ocustom]: what info.get_directive_arguments("custom") gave inside f's
+   resolver (OOk PNone = directive absent; ORej 1 = CoercionError reported for
+   the field); None when f was not resolved *)
+| CaseDir (s : schema) (cdefs : list ifield) (vds : list var_def) (dirs : list directive)
+          (raw : list (str * json)) (ovars : obs07) (oskip : option obs07) (ocustom : option obs07)
+          (* the same @custom application written in SDL on a type and applied
+             as a schema directive (build_schema: coerce_argument_values
+             without variables); None when not applicable *)
+          (osdl : option obs07).
 
 Fixpoint pv_eqb (a b : pv) {struct a} : bool :=
   match a, b with
@@ -86,6 +99,33 @@ Definition agree_C07 (c : case_C07) : bool :=
          | Ok vs => forallb (fun it => same PDict (coerce_argument_values s (fst it) call vs) (snd it)) items
          | _ => match items with [] => true | _ => false end
          end
+  | CaseDir s cdefs vds dirs raw ovars oskip ocustom osdl =>
+      let mv := coerce_variable_values s vds raw in
+      same PDict mv ovars
+      && match osdl with
+         | Some o => same (fun o => match o with Some kw => PDict kw | None => PNone end)
+                          (directive_arguments s cdefs (str_of_string "custom"%string) dirs []) o
+         | None => true
+         end
+      && match mv with
+         | Ok vs =>
+             let sk := skip_selection_args s dirs vs in
+             match oskip with
+             | Some os => same PBool sk os
+             | None => false
+             end
+             && match sk with
+                | Ok false =>
+                    match ocustom with
+                    | Some oc =>
+                        same (fun o => match o with Some kw => PDict kw | None => PNone end)
+                             (directive_arguments s cdefs (str_of_string "custom"%string) dirs vs) oc
+                    | None => false
+                    end
+                | _ => match ocustom with None => true | Some _ => false end
+                end
+         | _ => match oskip, ocustom with None, None => true | _, _ => false end
+         end
   end.
 
 (* diagnostics *)
@@ -107,6 +147,25 @@ Definition model_C07 (c : case_C07) :=
        match mv, items with
        | Ok vs, it :: _ => Some (coerce_argument_values s (fst it) call vs)
        | _, _ => None
+       end)
+  | CaseDir s cdefs vds dirs raw _ _ _ _ =>
+      let mv := coerce_variable_values s vds raw in
+      (match mv with Ok d => Ok (PDict d) | Rejected k p => Rejected k p
+                | OutOfFuel => OutOfFuel | Crash c => Crash c end,
+       match mv with
+       | Ok vs => Some (Some (match skip_selection_args s dirs vs with
+                              | Ok b => Ok [(str_if, PBool b)]
+                              | Rejected k p => Rejected k p
+                              | OutOfFuel => OutOfFuel | Crash c => Crash c end))
+       | _ => None
+       end,
+       match mv with
+       | Ok vs => Some (match directive_arguments s cdefs (str_of_string "custom"%string) dirs vs with
+                        | Ok (Some kw) => Ok kw
+                        | Ok None => Ok []
+                        | Rejected k p => Rejected k p
+                        | OutOfFuel => OutOfFuel | Crash c => Crash c end)
+       | _ => None
        end)
   end.
 
